@@ -52,6 +52,15 @@ def cases_for(ctx):
 
 
 def run(ctx, res):
+    if ctx.scale == 1:
+        res.notes.append('probe (implementation only): 3-8 frames built by msg* go through ONE decoder, one of them arriving in pieces; every frame must come out when complete and read back to its fields')
+        for k in range(ctx.n(60, 1500)):
+            bad = wire.stream_roundtrip_probe(ctx.rng('stream%d' % k))
+            res.evaluations += 1
+            res.count('stream_roundtrip_probe')
+            if bad:
+                res.failures.append(dict(signature='C05: stream probe', what=bad, case=dict(probe='stream', k=k)))
+                break
     res.rule = ('field tuples per opcode: table + random Unicode strings (empty, 255/256 bytes, 2/3/4-byte UTF-8, '
                 'bytes that look like length prefixes), payloads 0..3000 bytes plus frames at limit-1/limit/limit+1; '
                 'non-trivial = builder produced a frame; distinct by (opcode, field fingerprints)')
@@ -98,6 +107,8 @@ def run(ctx, res):
 
 
 def replay(ctx, case):
+    if case.get('probe') == 'stream':
+        return wire.stream_roundtrip_probe(ctx.rng('stream%d' % case['k']))
     f = [common.unjbytes(x) for x in case['fields']]
     obs, rec = wire.drive_build(case['op'], f)
     return wire.oracle_c05(case['op'], f, rec) if case.get('in_range') else None
